@@ -58,3 +58,21 @@ From PFL Require Export Model.PyRegex.
 
 (* the trim certificate used together with the uniqueness theorem of the minimal automaton *)
 From PFL Require Export Proofs.EnfaIso.
+
+(* ---- C06: the proved model of to_regex against the expression pyformlang returns, on all words up to length k ---- *)
+From PFL Require Export Model.Kleene.
+Definition to_regex_model_agrees (A : enfa N) (r : re) (k : nat) : bool :=
+  let m := to_regex A in
+  forallb (fun w => Bool.eqb (re_matches m w) (re_matches r w)) (dedup (words_upto (dedup (labels A)) k)).
+
+(* ---- C05: the proved models of Regex.to_epsilon_nfa and Regex.to_cfg against what pyformlang returns ---- *)
+From PFL Require Export Model.Thompson.
+Definition re_enfa_same (r : re) (A : enfa nat) : bool :=
+  let M := re_enfa_at (match e_starts A with c :: _ => c | [] => 0%nat end) r in
+  eqset (e_states M) (e_states A) && eqset (e_syms M) (e_syms A) && eqset (e_delta M) (e_delta A) &&
+  eqset (e_starts M) (e_starts A) && eqset (e_finals M) (e_finals A).
+From PFL Require Export Spec.Cfg Model.Cfg Model.RegexCfg.
+Definition re_cfg_same (r : re) (vars : list rvar) (terms : list N) (prods : list rprod) : bool :=
+  let M := re_cfg r in
+  eqset (g_vars M) vars && eqset (g_terms M) terms && eqset (g_prods M) prods &&
+  match g_start M with Some None => true | _ => false end.
